@@ -15,6 +15,9 @@ CLAIMED = {
  "C14": dict(cat="other", technique="CrossHair on the real find_all vs. derivative-based greedy reference (all clauses of the statement), replay on the unstubbed function",
              text="Bounded: all non-nullable pattern trees up to the operator bound x all sequences up to the length bound; the solver ranges over pattern index, length and letters. One known finding (inner attempt shadows outer) is listed and assumed away so the rest of each condition's space is still explored.",
              ref="DESIGN.md 3/C14"),
+ "C15": dict(cat="model_checking", technique="symbolic fixpoint of reachable (DFA state, depth class) configurations + one-step ambiguity query, both by CrossHair on the real Pattern.consume/predicates; replay as source text",
+             text="Complete exploration of a finite abstract space with the concrete dimensions (token text, nesting depth) left to the solver: every reachable configuration of every captured automaton x every token kind, with unbounded token value and depth. Not bounded in depth or token text; bounded only by Pygments' type families.",
+             ref="DESIGN.md 3/C15"),
 }
 NA = {}
 def main():
